@@ -97,9 +97,10 @@ Qed.
 Print Assumptions free_restores_refuted_for_empty_workgroup.
 
 (** Conservation, with the LDS size requested by the dispatch packet as a field
-    of the demand ([d_dyn], including dynamically sized LDS): whatever the
-    dynamic sizes were, once every work-group has been freed the masks and the
-    free-slot counts of the CU are the initial ones ... *)
+    of the demand ([d_dyn], static + dynamically sized LDS; reserve and free
+    both use [lds_bytes] = max of static and packet size): whatever the dynamic
+    sizes were, once every work-group has been freed the masks and the free-slot
+    counts of the CU are the initial ones ... *)
 Theorem resources_conserved : forall c h s,
   Forall op_ok h -> Resource.run (init_cu c) h = Some s -> resident s = [] ->
   smask s = smask (init_cu c) /\ lmask s = lmask (init_cu c) /\ simds s = simds (init_cu c).
@@ -108,19 +109,34 @@ Proof.
 Qed.
 Print Assumptions resources_conserved.
 
-(** ... and the dynamic size plays no role in what is reserved: the command
-    processor accounts for the static size on the reserve path and on the free
-    path alike. *)
-Theorem dynamic_lds_plays_no_role : forall s k d x,
-  match reserve s k d, reserve s k (with_dyn d x) with
-  | Crash, Crash => True
-  | Ret s1 r1, Ret s2 r2 =>
-    r1 = r2 /\ smask s1 = smask s2 /\ lmask s1 = lmask s2 /\ simds s1 = simds s2 /\ next_simd s1 = next_simd s2 /\
-    map fst (resident s1) = map fst (resident s2)
-  | _, _ => False
-  end.
-Proof. exact reserve_ignores_dyn. Qed.
-Print Assumptions dynamic_lds_plays_no_role.
+(** ... and the capacity statement holds with the dynamic part included: at
+    every reachable state the LDS units of the resident work-groups, each
+    counted with the larger of its static size and the size in its dispatch
+    packet (static + dynamic, what the compute unit allocates), add up to at
+    most the LDS units of the compute unit.  (On the pinned code, which
+    accounted for the static size only, this was false: see the witness in
+    corpus/C09/dynamic_lds_oversubscribed.json.) *)
+Theorem lds_capacity_with_dynamic : forall c h s,
+  Forall op_ok h -> Resource.run (init_cu c) h = Some s ->
+  lds_in_use (resident s) <= N.to_nat (cfg_lds c / LDS_GRAN).
+Proof.
+  intros c h s Hh Hr. exact (lds_capacity c s (resources_disjoint_inv c h s Hh Hr)).
+Qed.
+Print Assumptions lds_capacity_with_dynamic.
+
+(** non-vacuity: a work-group whose packet asks for 1024 bytes (static 0) takes
+    the whole LDS of a 1024-byte unit; the next one is refused until it is freed *)
+Example demo_dynamic_lds :
+  let c := mkCfg 64 1024 [(1024, 4)%N] in
+  exists s1 l1 s2 s3 s4 l4,
+    reserve (init_cu c) (1, 0)%N (mkDemand 1 16 4 0 1024) = Ret s1 (Some l1) /\
+    reserve s1 (1, 1)%N (mkDemand 1 16 4 0 256) = Ret s2 None /\
+    free s2 (1, 0)%N = Some s3 /\
+    reserve s3 (1, 1)%N (mkDemand 1 16 4 0 256) = Ret s4 (Some l4) /\
+    lds_in_use (resident s1) = 4 /\ lds_in_use (resident s4) = 1.
+Proof.
+  do 6 eexists. repeat (split; [vm_compute; reflexivity|]). vm_compute. reflexivity.
+Qed.
 
 (** A reservation succeeds only into free resources: one location per
     wavefront, every SGPR/VGPR/LDS region it returns was entirely Free (and
@@ -361,7 +377,7 @@ Print Assumptions done_means_all_answered.
     after a free it fits. *)
 Definition demo_cfg : cucfg := mkCfg 64 512 [(2048, 1)%N; (2048, 2)%N].
 Definition demo_hist : list op :=
-  [OReserve (1, 0)%N (mkDemand 2 16 8 256 0); OReserve (1, 1)%N (mkDemand 1 17 12 200 4096);
+  [OReserve (1, 0)%N (mkDemand 2 16 8 256 0); OReserve (1, 1)%N (mkDemand 1 17 12 200 256);
    OReserve (1, 2)%N (mkDemand 1 16 4 0 0); OFree (1, 0)%N; OReserve (1, 2)%N (mkDemand 1 16 4 0 0)].
 Example demo_resource :
   exists s, Resource.run (init_cu demo_cfg) demo_hist = Some s /\ Forall op_ok demo_hist /\
@@ -379,7 +395,7 @@ Qed.
 Definition demo_cp_cfg : cpcfg := mkCpCfg RoundRobin 1 0 2 4096.
 Definition demo_cus : list cucfg := [mkCfg 64 512 [(1024, 1)%N]; mkCfg 64 512 [(1024, 2)%N]].
 Definition demo_l1 : launch := mkLaunch 1 [mkDemand 1 16 4 256 0; mkDemand 1 16 4 256 0; mkDemand 1 16 4 256 0].
-Definition demo_l2 : launch := mkLaunch 2 [mkDemand 2 8 8 0 1024; mkDemand 1 8 8 0 1024].
+Definition demo_l2 : launch := mkLaunch 2 [mkDemand 2 8 8 0 0; mkDemand 1 8 8 0 0].
 Definition demo_evs : list ev :=
   [ELaunch demo_l1; ELaunch demo_l2; ETick; ETick; ETick; ERetrCU; ERetrCU; ERetrCU;
    EComplete [1000001%N]; ETick; ERetrCU; EComplete [1000000%N]; EComplete [1000002%N]; ETick; ETick;
